@@ -3,6 +3,7 @@
 -/
 import CSD.Lemmas.PFCMeta
 import CSD.Lemmas.HashBlocks
+import CSD.Lemmas.HashRP
 
 namespace CSD.Props.C02
 open CSD CSD.PFC
@@ -56,6 +57,16 @@ theorem blocks_locate_absent (cutSize : Nat) (tsizeOf : Nat → Nat) (S : List S
     (ok : Hash.PartsOK cutSize tsizeOf S) (q : Str) (hq : q ∉ S) :
     Hash.locateBlocks (Hash.buildBlocks cutSize tsizeOf S) q = 0 :=
   Hash.blocks_locate_absent ok q hq
+
+/-- HASHRPDAC end to end: an absent (NUL-free) query is answered 0 by the real `locate` — no stored
+string compares equal through the grammar, and no comparison reads outside the query's buffer. -/
+theorem hashrpdac_locate_absent (tsize0 : Nat) (S : List Str) (hnd : S.Nodup) (hcap : S.length ≤ tsize0)
+    (hacc : Hash.accepted (Hash.build tsize0 S).tsize = true) (hS : ∀ s ∈ S, PFC.nulFree s)
+    (g : RePair.Grammar) (seqs : List (List Nat)) (st : Hash.StoresRP (Hash.build tsize0 S) g seqs)
+    (q : Str) (hq : PFC.nulFree q) (habs : q ∉ S) :
+    Hash.locateRP (Hash.build tsize0 S) g seqs q = some 0 := by
+  have gd := Hash.goodDict_build tsize0 S hnd hcap hacc
+  rw [Hash.locateRP_eq gd hS g seqs st q hq, Hash.locate_absent gd q habs]
 
 /-- Hash kinds: ID 0 and IDs above `n` extract nothing. -/
 theorem hash_extract_bad_id (tsize0 : Nat) (S : List Str) (i : Nat) (h : i = 0 ∨ i > S.length) :
